@@ -121,17 +121,50 @@ theorem rebuild_forall2 (r : TReg) (cands stored : List (String × TReg))
       obtain ⟨e1, e2, e3, e4, e5⟩ := init_meta _ _ _ _ _ _ hi
       exact ⟨rfl, e1, e2, e3, e4, e5⟩
 
+theorem numArr_vals_length (a : NumArr) : a.vals.length = a.length := by
+  cases a <;> simp [NumArr.vals, NumArr.length]
+
+/-- an accepted candidate is stored as a subregion that passes the three tests AS STORED (repo fix
+5591fed0: the tests are made on the re-created copy) -/
+theorem candOk_stored (r : TReg) (n : List Nat) (c p : String × TReg) (hc : C10.candOk r n c.2 = true)
+    (hp : rebuildSub r c = .ok p) : subAccept r.toRegion n p.2.toRegion = true := by
+  unfold rebuildSub at hp
+  cases hi : TReg.init c.2.pmin c.2.pmax (some r.dims) (some r.units) r.tol with
+  | error e => rw [hi] at hp; cases hp
+  | ok s =>
+    rw [hi] at hp
+    simp only [Except.bind] at hp
+    injection hp with hp; subst hp
+    unfold C10.candOk at hc
+    by_cases hn : c.2.ndim = r.ndim
+    · rw [if_pos hn, hi] at hc
+      exact hc
+    · exfalso
+      rw [if_neg hn] at hc
+      simp only at hc
+      unfold subAccept Region.containsReg Region.containsPt at hc
+      simp only [Bool.and_eq_true, decide_eq_true_eq] at hc
+      have h1 := hc.1.1.1
+      apply hn
+      unfold TReg.ndim
+      have e1 : c.2.toRegion.pmin.length = c.2.pmin.length := numArr_vals_length _
+      have e2 : r.toRegion.ndim = r.pmin.length := numArr_vals_length _
+      rw [← e1, ← e2]; exact h1
+
 /-- **Whatever an HDF5 file contains, loaded subregions went through the setter.**  If the reader
 (`_MeshIO_HDF5._h5_load`, model `meshLoad`) returns a mesh `g`, its subregions are the result of the
-`subregions` setter of `g` on some candidate dictionary: every candidate passed the three tests
-(inside, whole cells, on the lattice) of THIS mesh, and every stored subregion is the candidate
-re-created with the mesh's dimension names, units and tolerance, corners ordered, names kept. -/
+`subregions` setter of `g` on some candidate dictionary: every candidate passed the setter's check
+(`candOk`: the three tests — inside, whole cells, on the lattice — made on the candidate re-created
+with the mesh's names, units and tolerance factor), every stored subregion is the candidate
+re-created with the mesh's dimension names, units and tolerance, corners ordered, names kept — and
+every STORED subregion passes the three tests of THIS mesh as it is stored. -/
 theorem h5_load_through_setter' (h : H5Mesh) (g : TMesh) (hg : meshLoad h = .ok g) :
     ∃ cands : List (String × TReg), C10.setSubs g.region g.n cands = .ok g.subs ∧
-      (∀ c ∈ cands, subAccept g.region.toRegion g.n c.2.toRegion = true) ∧
+      (∀ c ∈ cands, C10.candOk g.region g.n c.2 = true) ∧
       List.Forall₂ (fun c p => p.1 = c.1 ∧ p.2.dims = g.region.dims ∧ p.2.units = g.region.units ∧
           p.2.tol = g.region.tol ∧ p.2.pmin = NumArr.minimum c.2.pmin c.2.pmax ∧
-          p.2.pmax = NumArr.maximum c.2.pmin c.2.pmax) cands g.subs := by
+          p.2.pmax = NumArr.maximum c.2.pmin c.2.pmax) cands g.subs ∧
+      (∀ p ∈ g.subs, subAccept g.region.toRegion g.n p.2.toRegion = true) := by
   unfold meshLoad at hg
   cases hr : regionLoad h.region with
   | error e => rw [hr] at hg; cases hg
@@ -156,19 +189,19 @@ theorem h5_load_through_setter' (h : H5Mesh) (g : TMesh) (hg : meshLoad h = .ok 
               rw [hset] at hg
               simp only [Except.bind] at hg
               injection hg with hg; subst hg
-              refine ⟨ss, hset, ?_, ?_⟩
-              · unfold C10.setSubs at hset
-                split at hset
-                · cases hset
-                · rename_i hall
-                  intro c hc
-                  have hall' : ss.all (fun p => subAccept r.toRegion (h.n.map Int.toNat) p.2.toRegion) = true := by
-                    simpa using hall
-                  exact List.all_eq_true.mp hall' c hc
-              · unfold C10.setSubs at hset
-                split at hset
-                · cases hset
-                · exact rebuild_forall2 r ss stored (mapE_inv _ _ _ hset)
+              have hset' := hset
+              unfold C10.setSubs at hset
+              split at hset
+              · cases hset
+              · rename_i hall
+                have hall' : ∀ c ∈ ss, C10.candOk r (h.n.map Int.toNat) c.2 = true := by
+                  have : ss.all (fun p => C10.candOk r (h.n.map Int.toNat) p.2) = true := by simpa using hall
+                  exact fun c hc => List.all_eq_true.mp this c hc
+                have hf := mapE_inv _ _ _ hset
+                refine ⟨ss, hset', hall', rebuild_forall2 r ss stored hf, ?_⟩
+                intro p hp
+                obtain ⟨c, hc, hcp⟩ := forall2_mem_right _ _ _ hf p hp
+                exact candOk_stored r _ c p (hall' c hc) hcp
 
 /-- `SubInv` of the re-attached side-car: the mesh `load_subregions` produces from the side-car of a
 mesh satisfying `SubInv` (same geometry) satisfies `SubInv` -/
@@ -244,15 +277,16 @@ theorem subOk_congr (m m' : Mesh) (s : Region) (hr : m'.region = m.region) (hn :
   subst hr; subst hn
   rfl
 
-/-- … so the candidates an HDF5 load attaches passed exactly the tests `T.subOk` of the loaded mesh
-that C14's setter theorems (`set_accepts`, `set_rejects`, `set_accepts_exact`) are about -/
+/-- … so every subregion an HDF5 load attaches passes — as it is stored — exactly the three tests
+`T.subOk` of the loaded mesh that C14's setter theorems (`set_accepts`, `set_rejects`,
+`set_accepts_exact`) are about -/
 theorem h5_load_subOk (h : H5Mesh) (g : TMesh) (hg : meshLoad h = .ok g) :
     ∃ cands : List (String × TReg), C10.setSubs g.region g.n cands = .ok g.subs ∧
-      ∀ c ∈ cands, T.subOk (meshOfT g) c.2.toRegion = true := by
-  obtain ⟨cands, h1, h2, _⟩ := h5_load_through_setter' h g hg
+      ∀ p ∈ g.subs, T.subOk (meshOfT g) p.2.toRegion = true := by
+  obtain ⟨cands, h1, _, _, h4⟩ := h5_load_through_setter' h g hg
   refine ⟨cands, h1, ?_⟩
-  intro c hc
-  have := h2 c hc
+  intro p hp
+  have := h4 p hp
   rw [subAccept_eq_subOk] at this
   rw [← this]
   exact subOk_congr _ _ _ rfl rfl
